@@ -127,6 +127,15 @@ def _extract_job(a):
     with py7zr.SevenZipFile(path, "r", **kw) as z:
         if how == "factory":
             z.extractall(factory=py7zr.io.NullIOFactory())
+        elif how in ("targets-after", "targets-before"):
+            # selective extraction: the big member is NOT wanted and stands before (after) the wanted one in the same
+            # solid folder, so it is decoded only to be skipped
+            f = py7zr.io.BytesIOFactory(1 << 20)
+            want = "small1.txt" if how == "targets-after" else "small0.txt"
+            z.extract(targets=[want], factory=f)
+            got = {k: v.read() if not v.seek(0) else None for k, v in f.products.items()}
+            if list(got) != [want] or got[want] != (b"small after" if how == "targets-after" else b"small before"):
+                raise RuntimeError("extract(targets=[%r]) delivered %r" % (want, {k: len(v or b"") for k, v in got.items()}))
         elif how == "testzip":
             r = z.testzip()
             if r is not None:
@@ -163,7 +172,10 @@ def run(ctx):
            ("Deflate64-head", "ref:deflate64", "headzeros"),
            ("Deflate-head", [{"id": arclib.FILTER_DEFLATE}], "headzeros"),
            ("ZStandard-head", [{"id": arclib.FILTER_ZSTD, "level": 1}], "headzeros"),
-           ("LZMA2-head", [{"id": arclib.FILTER_LZMA2, "preset": 1}], "headzeros")]
+           ("LZMA2-head", [{"id": arclib.FILTER_LZMA2, "preset": 1}], "headzeros"),
+           # selective extraction past an unwanted member well above the budget (see 'targets-after' below)
+           ("LZMA2-skip", [{"id": arclib.FILTER_LZMA2, "preset": 1}], "zeros"),
+           ("ZStandard-skip", [{"id": arclib.FILTER_ZSTD, "level": 1}], "zeros")]
     if ctx.thorough:
         fam += [("LZMA", [{"id": arclib.FILTER_LZMA, "preset": 1}], "zeros"),
                 ("Brotli", [{"id": arclib.FILTER_BROTLI, "level": 1}], "zeros"),
@@ -179,8 +191,8 @@ def run(ctx):
             pw = "pw" if "AES" in nm else None
             # Deflate64 has no output limit of its own (py7zr feeds it piecewise): the member that follows an
             # incompressible head is made large enough for a one-shot inflate of the rest to cross the budget
-            sz = max(size, 448 << 20) if nm == "Deflate64-head" else size
-            wjobs.append((os.path.join(tmp, "a%d.7z" % i), f, pw, sz, tex, ["first", "last", "middle"][i % 3]))
+            sz = max(size, 448 << 20) if nm == "Deflate64-head" else (1 << 30) if nm.endswith("-skip") else size
+            wjobs.append((os.path.join(tmp, "a%d.7z" % i), f, pw, sz, tex, "middle" if nm.endswith("-skip") else ["first", "last", "middle"][i % 3]))
         wres = sandbox.pmap(_write_job, wjobs, workers=8, timeout=900 if ctx.thorough else 300, mem=None)
         ejobs, emeta = [], []
         for (nm, f, tex), wj, (st, val) in zip(fam, wjobs, wres):
@@ -195,6 +207,10 @@ def run(ctx):
                 ctx.fail("C20:write_rss:" + nm.split("-")[0] + ":" + tex, "writing one %d MiB %s member through %s peaked %d MiB above the interpreter baseline" % (size >> 20, tex, nm, peak - base),
                          {"chain": nm, "texture": tex, "size": size, "peak_mib": peak, "base_mib": base})
             hows = ["factory", "testzip"] if not ctx.thorough else ["factory", "testzip", "path"]
+            if nm.endswith("-skip"):
+                hows = ["targets-after", "targets-before"]
+            elif wj[5] == "middle" and f != "ref:deflate64":
+                hows = hows + ["targets-after"]
             for how in hows:
                 ejobs.append((wj[0], wj[2], how))
                 emeta.append((nm, tex, how))
